@@ -1,7 +1,7 @@
 """C16 - push queue: accepted values are delivered once, in order, within capacity (boundary-history checker)."""
 from __future__ import annotations
 import bisect, json, os, random, time
-from .runner import Inconclusive, ensure_build, REPLAYS, write_evidence, sig_hash
+from .runner import Inconclusive, ensure_build, REPLAYS, write_evidence, sig_hash, scaled
 from .rt import Scenario, run_scenarios
 
 PROPERTY = "C16"
@@ -259,15 +259,23 @@ def check_single(sc, tr, rc):
         if s[5] == 1 and s[3] > run_ret:
             V.append(f"send of {s[2]} called after run() returned was accepted")
     # drain mode: everything accepted is delivered (bounded progress)
-    if kv["stop"] == "drain" and policy != "conflate":
+    # (a run that reached its end time before the controller asked for the stop did not 'continue until the drain deadline')
+    drained = kv["stop"] == "drain" and stop_call is not None and stop_call <= run_ret
+    if kv["stop"] == "drain" and not drained:
+        C["drain_cut_by_end_time"] = 1
+    if drained and policy != "conflate":
         missing = [i for i in accepted if i not in seen]
         if missing:
             V.append(f"{len(missing)} accepted values (e.g. {sorted(missing)[:4]}) were not delivered although the run continued after the last send "
                      f"until the drain deadline")
-    if kv["stop"] == "drain" and policy == "conflate" and accepted and ids:
-        lasts = {acc[-1] for acc in by_prod.values()}
-        if ids[-1] not in lasts:
-            V.append(f"conflating source: last delivered value {ids[-1]} is not the latest accepted value of any producer {sorted(lasts)}")
+    if drained and policy == "conflate" and accepted and ids:
+        nsrc = max(1, int(kv.get("sources", 1)))
+        for src in range(nsrc):
+            lasts = {acc[-1] for p, acc in by_prod.items() if (p - 1) % nsrc == src}
+            got = [i for d in tr.deliveries if d[5] == src for i in d[4]]
+            if lasts and (not got or got[-1] not in lasts):
+                V.append(f"conflating source {src}: last delivered value {got[-1] if got else None} is not the latest accepted value of any of its "
+                         f"producers {sorted(lasts)} although the run continued until the drain deadline")
     # interleaving classes observed (evidence)
     waits = sorted((h[2], h[1]) for h in tr.hooks if h[1] in ("rt.wait.enter", "rt.wait.leave"))
     enter_ts = [t for t, p in waits if p == "rt.wait.enter"]
@@ -289,7 +297,7 @@ def main(tier, seed, replay):
         print(f"INCONCLUSIVE property={PROPERTY} reason={e}")
         return 2
     rng = random.Random(f"C16/{seed}/{tier}")
-    n = 150 if tier == "quick" else 2500
+    n = scaled(150 if tier == "quick" else 2500)
     if replay:
         rp = json.load(open(replay))
         scs = [Scenario(rp["scenario"]["name"], rp["scenario"]["kv"])]
